@@ -1,7 +1,8 @@
 (* Parser_TokensExamples_Proofs.v — C08_token_spelling, part 7: non-vacuity examples and the necessity of the
    well-formedness conditions (witnesses found with vm_compute and checked against rbql_engine.py). *)
 From RBQL Require Import Base Parser Parser_Spelling_Proofs Parser_Tokens_Proofs Parser_TokensLocate_Proofs
-  Parser_TokensRender_Proofs Parser_TokensQuery_Proofs Parser_TokensMain_Proofs Parser_TokensSpell_Proofs.
+  Parser_TokensRender_Proofs Parser_TokensQuery_Proofs Parser_TokensMain_Proofs Parser_TokensSpell_Proofs
+  Parser_TokensJoin_Proofs Parser_TokensFrom_Proofs.
 From Coq Require String.
 Import String.StringSyntax.
 Local Open Scope N_scope.
@@ -156,4 +157,50 @@ Proof.
   split; [vm_compute; reflexivity|]. split; [vm_compute; reflexivity|].
   split; [apply sigma_okb_sound; vm_compute; reflexivity|]. split; [apply sigma_okb_sound; vm_compute; reflexivity|].
   vm_compute. discriminate.
+Qed.
+
+(* ------------------------------------------------------------------ FROM a, UPDATE a SET, ON conditions *)
+(* select a1  from  A   where a2 > 1 limit 3 : the hypotheses of from_a_redundant hold, the text is what it says *)
+Definition ex_qf : aq := mkAq (QSelect None false false $"a1") (Some $"a2 > 1") None None (Some $"3") None None None.
+Definition ex_sf : sigma := std_sigma ex_qf [CWhere; CLimit].
+Example ex_from_a :
+  render_from ex_sf ex_qf [] [CWhere; CLimit] 1 $"from" 1 65 = $"SELECT a1  from  A WHERE a2 > 1 LIMIT 3" /\
+  remove_redundant_input_table_name LPy (render_from ex_sf ex_qf [] [CWhere; CLimit] 1 $"from" 1 65) = $"SELECT a1 WHERE a2 > 1 LIMIT 3" /\
+  separate_actions LPy false (remove_redundant_input_table_name LPy (render_from ex_sf ex_qf [] [CWhere; CLimit] 1 $"from" 1 65))
+  = separate_actions LPy false (render ex_sf ex_qf) /\
+  render_from ex_sf ex_qf [CWhere; CLimit] [] 0 $"FROM" 0 97 = $"SELECT a1 WHERE a2 > 1 LIMIT 3 FROM a".
+Proof.
+  split; [vm_compute; reflexivity|]. split; [vm_compute; reflexivity|]. split; [|vm_compute; reflexivity].
+  apply from_a_redundant; try (vm_compute; reflexivity).
+  - apply sigma_okb_sound. vm_compute. reflexivity.
+  - do 4 eexists. reflexivity.
+  - apply case_relb_sound. vm_compute. reflexivity.
+Qed.
+
+Definition ex_qu : aq := mkAq (QUpdate $"a1 = a2 + 1") (Some $"a3 == 5") None None None None None None.
+Definition ex_su : sigma := std_sigma ex_qu [CWhere].
+Example ex_update_a_set :
+  render_upd_a ex_su ex_qu $"a1 = a2 + 1" 0 97 1 = $"UPDATE a  SET a1 = a2 + 1 WHERE a3 == 5" /\
+  remove_redundant_input_table_name LPy (render_upd_a ex_su ex_qu $"a1 = a2 + 1" 0 97 1) = $"update a1 = a2 + 1 WHERE a3 == 5" /\
+  separate_actions LPy false (remove_redundant_input_table_name LPy (render_upd_a ex_su ex_qu $"a1 = a2 + 1" 0 97 1))
+  = separate_actions LPy false (render ex_su ex_qu).
+Proof.
+  split; [vm_compute; reflexivity|]. split; [vm_compute; reflexivity|].
+  apply update_set_redundant; try (vm_compute; reflexivity). apply sigma_okb_sound. vm_compute. reflexivity.
+Qed.
+
+(* b.csv  on a1==b2 AND  a3 = b4   and   b.csv ON a1 =  b2 and a3==b4 *)
+Definition ex_ps1 : list jpair := [mkJpair $"a1" $"b2" true 0 0 0 $"AND" 1; mkJpair $"a3" $"b4" false 1 1 0 $"AND" 0].
+Definition ex_ps2 : list jpair := [mkJpair $"a1" $"b2" false 1 2 0 $"and" 0; mkJpair $"a3" $"b4" true 0 0 0 $"and" 0].
+Example ex_join_on :
+  render_join $"b.csv" 1 $"on" 0 ex_ps1 = $"b.csv  on a1==b2 AND  a3 = b4" /\
+  render_join $"b.csv" 0 $"ON" 0 ex_ps2 = $"b.csv ON a1 =  b2 and a3==b4" /\
+  parse_join_expression LPy (render_join $"b.csv" 1 $"on" 0 ex_ps1) = Ok ($"b.csv", [($"a1", $"b2"); ($"a3", $"b4")]) /\
+  parse_join_expression LPy (render_join $"b.csv" 0 $"ON" 0 ex_ps2) = Ok ($"b.csv", [($"a1", $"b2"); ($"a3", $"b4")]).
+Proof.
+  split; [vm_compute; reflexivity|]. split; [vm_compute; reflexivity|].
+  assert (A1 : case_rel K_AND $"AND") by (apply case_relb_sound; vm_compute; reflexivity).
+  assert (A2 : case_rel K_AND $"and") by (apply case_relb_sound; vm_compute; reflexivity).
+  split; (rewrite join_on_equiv; [reflexivity | vm_compute; reflexivity | vm_compute; reflexivity | apply case_relb_sound; vm_compute; reflexivity | discriminate |]);
+    repeat (constructor; [unfold jpair_ok; cbn; repeat split; first [reflexivity | left; assumption]|]); constructor.
 Qed.
